@@ -532,3 +532,158 @@ Proof.
 Qed.
 
 End HB.
+
+(* ------------------------------------------------------------------ traces of the protocol machines *)
+Lemma hbp_pstep_mon ug p s t :
+  ps_mon (rc_pstep ug p s t) =
+  match hb_pev ug p s t with
+  | Some (t', e) => rc_step (rc_nthreads p) (ps_mon s) t' e
+  | None => ps_mon s
+  end.
+Proof.
+  unfold rc_pstep, hb_pev. destruct t as [|j].
+  - destruct (ps_wpc s <? length (pb_ws p)); [reflexivity|].
+    destruct (ps_wpc s <? length (pb_ws p) + length (pb_os p)); reflexivity.
+  - destruct (nth_error (ps_rpcs s) j) as [[|k|]|];
+      destruct (nth_error (pb_readers p) j) as [[o xs]|]; try reflexivity.
+    destruct (k <? length xs); reflexivity.
+Qed.
+
+Lemma hbp_prun_mon ug p sched : forall s,
+  ps_mon (fold_left (rc_pstep ug p) sched s) =
+  fold_left (fun m q => rc_step (rc_nthreads p) m (fst q) (snd q))
+            (hb_ptrace_from ug p s sched) (ps_mon s).
+Proof.
+  induction sched as [|t r IH]; intros s; cbn [fold_left hb_ptrace_from]; [reflexivity|].
+  rewrite IH, fold_left_app, hbp_pstep_mon.
+  destruct (hb_pev ug p s t) as [[t' e]|]; reflexivity.
+Qed.
+
+(* the monitor inside the machine is the monitor run on the emitted trace *)
+Theorem hbp_ptrace_mon ug p sched :
+  ps_mon (rc_prun ug p sched) = rc_run (rc_nthreads p) (hb_ptrace ug p sched).
+Proof. unfold rc_prun, hb_ptrace, rc_run. rewrite hbp_prun_mon. reflexivity. Qed.
+
+Lemma hbp_pev_wf ug p s t t' e : hb_pev ug p s t = Some (t', e) -> t' < rc_nthreads p.
+Proof.
+  unfold hb_pev, rc_nthreads. destruct t as [|j].
+  - destruct (ps_wpc s <? length (pb_ws p)); [intros H; inversion H; lia|].
+    destruct (ps_wpc s <? length (pb_ws p) + length (pb_os p)); intros H; inversion H; lia.
+  - destruct (nth_error (ps_rpcs s) j) as [[|k|]|]; try discriminate;
+      destruct (nth_error (pb_readers p) j) as [[o xs]|] eqn:E; try discriminate;
+      assert (j < length (pb_readers p)) by (apply nth_error_Some; congruence).
+    + intros H'; inversion H'; lia.
+    + destruct (k <? length xs); intros H'; inversion H'; lia.
+Qed.
+
+Lemma hbp_ptrace_wf ug p sched : forall s, hb_wf (rc_nthreads p) (hb_ptrace_from ug p s sched).
+Proof.
+  unfold hb_wf. induction sched as [|t r IH]; intros s; cbn [hb_ptrace_from]; [constructor|].
+  apply Forall_app. split; [|apply IH].
+  destruct (hb_pev ug p s t) as [[t' e]|] eqn:E; cbn [hb_opt_list]; [|constructor].
+  constructor; [|constructor]. cbn [fst]. eapply hbp_pev_wf. exact E.
+Qed.
+
+Theorem hbp_pub_hb_race_free p sched : ~ hb_race (hb_ptrace false p sched).
+Proof.
+  apply (hbp_agree (rc_nthreads p)); [apply hbp_ptrace_wf|].
+  rewrite <- hbp_ptrace_mon. apply pb_race_free.
+Qed.
+
+(* lock discipline *)
+Lemma hbp_lstep_mon progs s t :
+  ls_mon (rc_lstep progs s t) =
+  match hb_lev progs s t with
+  | Some (t', e) => rc_step (length progs) (ls_mon s) t' e
+  | None => ls_mon s
+  end.
+Proof.
+  unfold rc_lstep, hb_lev.
+  destruct (nth_error (ls_pcs s) t) as [[[sec pos] inside]|]; [|reflexivity].
+  destruct (nth_error progs t) as [prog|]; [|reflexivity].
+  destruct (nth_error prog sec) as [accs|]; [|reflexivity].
+  destruct inside; cbn [negb].
+  - destruct (nth_error accs pos) as [[w x]|]; reflexivity.
+  - destruct (ls_owner s); reflexivity.
+Qed.
+
+Lemma hbp_lrun_mon progs sched : forall s,
+  ls_mon (fold_left (rc_lstep progs) sched s) =
+  fold_left (fun m q => rc_step (length progs) m (fst q) (snd q))
+            (hb_ltrace_from progs s sched) (ls_mon s).
+Proof.
+  induction sched as [|t r IH]; intros s; cbn [fold_left hb_ltrace_from]; [reflexivity|].
+  rewrite IH, fold_left_app, hbp_lstep_mon.
+  destruct (hb_lev progs s t) as [[t' e]|]; reflexivity.
+Qed.
+
+Theorem hbp_ltrace_mon progs sched :
+  ls_mon (rc_lrun progs sched) = rc_run (length progs) (hb_ltrace progs sched).
+Proof. unfold rc_lrun, hb_ltrace, rc_run. rewrite hbp_lrun_mon. reflexivity. Qed.
+
+Lemma hbp_lev_wf progs s t t' e : hb_lev progs s t = Some (t', e) -> t' < length progs.
+Proof.
+  unfold hb_lev.
+  destruct (nth_error (ls_pcs s) t) as [[[sec pos] inside]|]; [|discriminate].
+  destruct (nth_error progs t) as [prog|] eqn:E; [|discriminate].
+  assert (t < length progs) by (apply nth_error_Some; congruence).
+  destruct (nth_error prog sec) as [accs|]; [|discriminate].
+  destruct inside; cbn [negb].
+  - destruct (nth_error accs pos) as [[w x]|]; intros H'; inversion H'; lia.
+  - destruct (ls_owner s); [discriminate|]. intros H'; inversion H'; lia.
+Qed.
+
+Lemma hbp_ltrace_wf progs sched : forall s, hb_wf (length progs) (hb_ltrace_from progs s sched).
+Proof.
+  unfold hb_wf. induction sched as [|t r IH]; intros s; cbn [hb_ltrace_from]; [constructor|].
+  apply Forall_app. split; [|apply IH].
+  destruct (hb_lev progs s t) as [[t' e]|] eqn:E; cbn [hb_opt_list]; [|constructor].
+  constructor; [|constructor]. cbn [fst]. eapply hbp_lev_wf. exact E.
+Qed.
+
+Theorem hbp_lock_hb_race_free progs sched : ~ hb_race (hb_ltrace progs sched).
+Proof.
+  apply (hbp_agree (length progs)); [apply hbp_ltrace_wf|].
+  rewrite <- hbp_ltrace_mon. apply lk_race_free.
+Qed.
+
+(* the refuted patterns are races in the relational sense too *)
+Lemma hbp_unguarded_hb_race :
+  hb_race (hb_ptrace true {| pb_ws := [7]; pb_os := [1]; pb_readers := [(1, [7])] |} [0; 1; 1]).
+Proof. apply (hbp_sound 2). vm_compute. reflexivity. Qed.
+
+Lemma hbp_two_writers_hb_race : hb_race [(0, RWrite 7); (1, RWrite 7)].
+Proof. apply (hbp_sound 2). exact rc_two_writers_race. Qed.
+
+(* ------------------------------------------------------------------ the definitions at work *)
+(* proved directly from the relational definitions, without the monitor *)
+Lemma hbp_ex_publication_ordered :
+  hb_hb [(0, RWrite 7); (0, RRel 1); (1, RAcq 1); (1, RRead 7)] 0 3.
+Proof.
+  unfold hb_hb. apply t_trans with 1; [|apply t_trans with 2]; apply t_step.
+  - left. split; [lia|]. exists 0, (RWrite 7), (RRel 1). split; reflexivity.
+  - right. split; [lia|]. exists 0, (RRel 1), 1, (RAcq 1), 1. repeat split; reflexivity.
+  - left. split; [lia|]. exists 1, (RAcq 1), (RRead 7). split; reflexivity.
+Qed.
+
+Lemma hbp_ex_two_writers_unordered : ~ hb_hb [(0, RWrite 7); (1, RWrite 7)] 0 1.
+Proof.
+  intros H. apply hbp_hb_last in H. destruct H as [j [_ [[Hlt H]|[Hlt H]]]].
+  - destruct H as [t [e1 [e2 [H1 H2]]]]. assert (j = 0) by lia. subst j.
+    cbn in H1, H2. congruence.
+  - destruct H as [t1 [e1 [t2 [e2 [o [_ [H2 [_ Ha]]]]]]]]. cbn in H2. inversion H2; subst.
+    exact Ha.
+Qed.
+
+(* an acquire that comes BEFORE the release does not synchronise *)
+Lemma hbp_ex_early_acquire_races :
+  hb_race [(1, RAcq 1); (0, RWrite 7); (0, RRel 1); (1, RRead 7)].
+Proof. apply (hbp_sound 2). vm_compute. reflexivity. Qed.
+
+(* a chain through read-modify-write operations orders the accesses (three threads) *)
+Lemma hbp_ex_rmw_chain_race_free :
+  ~ hb_race [(0, RWrite 7); (0, RAcqRel 1); (1, RAcqRel 1); (1, RRel 2); (2, RAcq 2); (2, RWrite 7)].
+Proof.
+  apply (hbp_agree 3); [|vm_compute; reflexivity].
+  unfold hb_wf. repeat constructor.
+Qed.
